@@ -40,10 +40,14 @@ import (
 //	'Q' Size goroutines receive until an error, concurrently; wait for all
 //	'w' sleep Size milliseconds (real time: only for options that are about real time)
 //	'v' receive one message through RawRecv and keep the returned slice (checked later: it must not change)
+//	'm' send one message that the sender's own encoder rejects (the send fails locally, nothing is written)
 type Act struct {
 	Op   byte
 	Size int
 }
+
+// unmarshalable is a message type payload.Enc cannot marshal.
+type unmarshalable struct{}
 
 // ErrSpec describes the error a handler returns.
 type ErrSpec struct {
@@ -365,6 +369,9 @@ func (x *Exec) runActs(l *RPCLog, side byte, st drpc.Stream, acts []Act, cancel 
 			m := payload.Undecodable(a.Size)
 			ev := l.begin(side, "send-undecodable", a.Size, 0)
 			l.end(ev, st.MsgSend(&m, payload.Enc{}))
+		case 'm':
+			ev := l.begin(side, "send-unmarshalable", 0, 0)
+			l.end(ev, st.MsgSend(unmarshalable{}, payload.Enc{}))
 		case 'r':
 			recv()
 		case 'w':
